@@ -45,10 +45,10 @@ type rop struct {
 	Except []uint32
 	Flags  [3]bool
 	Doc    uint64
-	Stop   int    // visit: stop after this many callbacks (-1: never)
-	Nest   int    // visit: 0 none, 1 nested visit of Doc2, 2 DocID(Doc2) inside the callback
+	Stop   int // visit: stop after this many callbacks (-1: never)
+	Nest   int // visit: 0 none, 1 nested visit of Doc2, 2 DocID(Doc2) inside the callback
 	Doc2   uint64
-	YieldK int    // visit: yield inside the k-th callback (and every callback when <0)
+	YieldK int // visit: yield inside the k-th callback (and every callback when <0)
 	IDs    []string
 	Docs   []uint64 // dv: documents visited with one private state
 	Fields []string
